@@ -1317,7 +1317,7 @@ func genFacade(prop string, seed uint64, tier, outDir string, count int) error {
 	if count == 0 {
 		count = 1500
 		if tier == "thorough" {
-			count = 20000
+			count = 12000
 		}
 	}
 	meta := genMeta{Property: prop, Seed: seed, Tier: tier, OpHist: map[string]int{}, OutHist: map[string]int{}, TypeHist: map[string]int{}, LenHist: map[string]int{}, Extra: map[string]any{}}
@@ -1397,6 +1397,9 @@ func genFacade(prop string, seed uint64, tier, outDir string, count int) error {
 	}
 	meta.Explain = "Definition the_case := nth {case} cases dummy_case.\nDefinition Report := Eval vm_compute in (case_report the_case).\nPrint Report.\n"
 	shardSize := 150
+	if len(cases) > 6000 {
+		shardSize = 500 // the driver evaluates all shards at once: keep their number moderate
+	}
 	for s := 0; s*shardSize < len(cases); s++ {
 		lo, hi := s*shardSize, (s+1)*shardSize
 		if hi > len(cases) {
